@@ -15,3 +15,5 @@ Lemma ob_hpack_at_release : hpack_at_release = true.
 Proof. vm_compute. reflexivity. Qed.
 Lemma ob_mitm_deadline_cleared_before_h2 : mitm_deadline_cleared_before_h2 = true.
 Proof. vm_compute. reflexivity. Qed.
+Lemma ob_hpack_limits_unbounded : hpack_limits_unbounded = true.
+Proof. vm_compute. reflexivity. Qed.
